@@ -189,10 +189,9 @@ def type_of(case, name):
 class C15(Prop):
     pid = "C15"
     theorems = ["C15_select_equivariant", "C15_select_input_order_irrelevant", "C15_ranks_monotone",
-                "C15_ranks_antitone", "C15_kruskal_spearman_monotone_invariant",
-                "C15_spearman_abs_neg", "C15_regression_copy_refuted",
-                "C15_regression_negation_refuted", "C15_kruskal_invariant_under_negation",
-                "C15_colsample_samples_partition"]
+                "C15_ranks_antitone", "C15_kruskal_spearman_monotone_invariant", "C15_spearman_abs_neg",
+                "C15_regression_copy_refuted", "C15_regression_negation_refuted",
+                "C15_kruskal_invariant_under_negation", "C15_colsample_samples_partition"]
     rule = ("metamorphic pairs on the real selectors: a C14 frame (8-60 rows, correlated clusters, NaN, "
             "constant columns, binary / multiclass / continuous targets, all measure / filter lists) and "
             "its re-encoding: one quantitative feature negated or multiplied by 2, 3, 0.5, 7 or 10; the "
